@@ -884,6 +884,14 @@ def rule_r16(prog, res):
     res.floor('R16', 'stores of __extends__ in the metaclass helper', n, 1)
 
 
+def rule_r17(prog, res):
+    from . import c01
+    from ..report import Result
+    res.share('R17', 'the root element of a message keeps the message name '
+              'when polymorphism switches the class (C01-R14)', 'C01',
+              c01.rule_r14, prog, Result)
+
+
 def run(prog, res, tier):
     res.run_rule(rule_r1, prog, res)
     res.run_rule(rule_r2, prog, res)
@@ -901,6 +909,7 @@ def run(prog, res, tier):
     res.run_rule(rule_r14, prog, res)
     res.run_rule(rule_r15, prog, res)
     res.run_rule(rule_r16, prog, res)
+    res.run_rule(rule_r17, prog, res)
 
 
 _C = 'spyne/model/complex.py'
